@@ -138,6 +138,13 @@ def handle (s : Sess) (line : String) : IO Sess := do
       let t := mkTables D
       IO.println s!"tables {D} {t.foldl (fun a l => a + l.length) 0}"
       return { s with clmo := t }
+  | ["decall", d], [] =>
+      match d.toNat? with
+      | some d =>
+          let n := (s.clmo.getD d []).length
+          let ks := (List.range n).flatMap fun i => decode s.clmo i d
+          IO.println (" ".intercalate ("decall" :: toString d :: ks.map toString)); return s
+      | none => bad
   | "pack" :: ks, [] =>
       match parseNats ks with
       | some k => IO.println s!"pack {pack k}"; return s
